@@ -29,6 +29,8 @@ pub enum Op {
     SetPd1,
     SetPd2,
     SetPdBad,
+    /// setup(P1) with a SECOND validity checker (world 2 = world 1 plus an obstacle on the scripted route)
+    SetupP1W2,
 }
 
 #[derive(Clone, Copy, Debug, PartialEq, Eq)]
@@ -76,6 +78,7 @@ struct Harness<K: Kit> {
     g2: Arc<HGoal<K>>,
     s1: K::S,
     s2: K::S,
+    world2: Arc<crate::seams::World<K>>,
 }
 
 fn harness<K: Kit>(sc: &Scenario) -> Harness<K> {
@@ -91,14 +94,19 @@ fn harness<K: Kit>(sc: &Scenario) -> Harness<K> {
     let p2 = Arc::new(Pd::<K> { space: rig.space.clone(), start_states: vec![s2.clone()], goal: g2.clone() });
     let bad_start = K::from_v(&b.alphabet[ak.far]);
     let pbad = Arc::new(Pd::<K> { space: rig.space.clone(), start_states: vec![bad_start], goal: g1.clone() });
-    Harness { rig, p1, p2, pbad, g1, g2, s1, s2 }
+    // world 2: the far obstacle plus a ball on the middle state of the forward script
+    let mut w2 = sc.world.clone();
+    w2.name = format!("{}+route-blocked", w2.name);
+    w2.obst.push(ObstSpec::Ball(b.alphabet[ak.fwd[1] as usize].clone(), ak.far_r.max(0.1)));
+    let world2 = Arc::new(crate::scen::build_world::<K>(&sc.spec, &w2));
+    Harness { rig, p1, p2, pbad, g1, g2, s1, s2, world2 }
 }
 
 pub fn menu(pk: Pk) -> Vec<Op> {
     if pk == Pk::Prm {
-        vec![Op::SetupP1, Op::SetupP2, Op::SetupBad, Op::Construct, Op::SetPd1, Op::SetPd2, Op::SetPdBad, Op::SolveF]
+        vec![Op::SetupP1, Op::SetupP2, Op::SetupBad, Op::SetupP1W2, Op::Construct, Op::SetPd1, Op::SetPd2, Op::SetPdBad, Op::SolveF]
     } else {
-        vec![Op::SetupP1, Op::SetupP2, Op::SetupBad, Op::SolveF, Op::SolveR]
+        vec![Op::SetupP1, Op::SetupP2, Op::SetupBad, Op::SetupP1W2, Op::SolveF, Op::SolveR]
     }
 }
 
@@ -149,6 +157,7 @@ fn run_sequence<K: Kit>(prop: &str, sc: &Scenario, seq: &[Op], faults: (Option<u
     }
     let mut pd = Prob::None; // installed problem
     let mut vc = false; // checker installed
+    let mut in_world2 = false; // which checker is the installed one
     let mut outcome_sig: Vec<u64> = Vec::new();
     rep.count("evaluations", 1);
     let replay = |i: usize, extra: Value| json!({"kind": "api", "prop": prop, "scenario": sc.json(), "calls": format!("{seq:?}"), "goal_sampler_fails_at": format!("{faults:?}"), "failing_call": i, "detail": extra});
@@ -168,6 +177,10 @@ fn run_sequence<K: Kit>(prop: &str, sc: &Scenario, seq: &[Op], faults: (Option<u
                 }
                 Op::SetupBad => {
                     h.rig.drv.setup(h.pbad.clone(), h.rig.world.clone());
+                    None
+                }
+                Op::SetupP1W2 => {
+                    h.rig.drv.setup(h.p1.clone(), h.world2.clone());
                     None
                 }
                 Op::SetPd1 => {
@@ -225,13 +238,14 @@ fn run_sequence<K: Kit>(prop: &str, sc: &Scenario, seq: &[Op], faults: (Option<u
         };
         // ---- reference automaton
         match op {
-            Op::SetupP1 | Op::SetupP2 | Op::SetupBad => {
+            Op::SetupP1 | Op::SetupP2 | Op::SetupBad | Op::SetupP1W2 => {
                 pd = match op {
-                    Op::SetupP1 => Prob::P1,
+                    Op::SetupP1 | Op::SetupP1W2 => Prob::P1,
                     Op::SetupP2 => Prob::P2,
                     _ => Prob::Bad,
                 };
                 vc = true;
+                in_world2 = *op == Op::SetupP1W2;
                 if pk == Pk::Prm && h.rig.snapshot().node_count() != 0 && prop == "C08" {
                     rep.violate(format!("C08|{name}|setup-kept-roadmap"), "setup() did not clear the roadmap".into(), || replay(i, json!({})));
                     return;
@@ -294,12 +308,18 @@ fn run_sequence<K: Kit>(prop: &str, sc: &Scenario, seq: &[Op], faults: (Option<u
                         Some("first-state-not-latest-start")
                     } else if !goal.contains(path.last().unwrap()) {
                         Some("last-state-not-in-latest-goal")
-                    } else if path.iter().any(|s| !h.rig.world.free(s)) {
-                        Some("invalid-state-on-path")
+                    } else if path.iter().any(|s| if in_world2 { !h.world2.free(s) } else { !h.rig.world.free(s) }) {
+                        if in_world2 {
+                            rep.count("paths_judged_by_the_second_checker", 0);
+                        }
+                        Some("state-rejected-by-the-latest-checker")
                     } else {
                         None
                     };
                     rep.count("ok_paths_checked", 1);
+                    if in_world2 {
+                        rep.count("ok_paths_under_the_second_checker", 1);
+                    }
                     if pd == Prob::P2 {
                         rep.count("ok_paths_for_replaced_problem", 1);
                     }
